@@ -8,6 +8,7 @@ import (
 	"os"
 
 	"verifharness/gate"
+	"verifharness/stack"
 	"verifharness/walkfile"
 )
 
@@ -25,6 +26,8 @@ func main() {
 	in := fs.String("in", "", "input file")
 	out := fs.String("out", "", "output file")
 	maxDiv := fs.Int("maxdiv", 5, "stop after this many divergences")
+	from := fs.Int("from", 0, "first scenario index")
+	quiet := fs.Bool("quiet", true, "silence the emulator's log")
 	_ = fs.Parse(os.Args[2:])
 	switch sub {
 	case "gatewalk":
@@ -35,6 +38,13 @@ func main() {
 		rep := gate.ReplayWalk(f, *maxDiv)
 		if err := rep.Write(*out); err != nil {
 			die("write: %v", err)
+		}
+	case "run":
+		if *quiet {
+			stack.Quiet()
+		}
+		if err := stack.RunFile(*in, *out, *from); err != nil {
+			die("run: %v", err)
 		}
 	default:
 		die("unknown subcommand %s", sub)
